@@ -143,3 +143,50 @@ pub fn run_asm(args: &[u64]) -> Vec<Vec<u64>> {
     }
     lines
 }
+
+fn fnv(s: &str) -> u64 {
+    let mut h: u64 = 0xcbf29ce484222325;
+    for b in s.bytes() {
+        h ^= b as u64;
+        h = h.wrapping_mul(0x100000001b3);
+    }
+    h & 0xFFFF_FFFF_FFFF
+}
+
+/// Like `run_asm`, but every result line also carries what the assembly printed on the console
+/// (warnings such as the negative `.blkw` size): `... c0de <hash of stdout+stderr> <length>`.
+/// Used for implementation-vs-implementation comparisons only (the model does not print).
+pub fn run_asmw(args: &[u64]) -> Vec<Vec<u64>> {
+    let mut c = Cur::new(args);
+    let feat = c.next() != 0;
+    let nsrc = c.next() as usize;
+    set_features(feat);
+    lace::reset_state();
+    let mut lines = Vec::new();
+    for _ in 0..nsrc {
+        let reset = c.next() != 0;
+        let n = c.next() as usize;
+        let text: String = c
+            .take(n)
+            .iter()
+            .map(|x| char::from_u32(*x as u32).unwrap_or('\u{FFFD}'))
+            .collect();
+        if reset {
+            lace::reset_state();
+        }
+        let mut holder = lace::StaticSource::new(text);
+        let src = holder.src();
+        lace::verif::arm(&[], u64::MAX, u64::MAX, false);
+        let mut line = assemble_one(src);
+        let out = lace::verif::take_out();
+        let err = lace::verif::take_err();
+        lace::verif::disarm();
+        holder.reclaim();
+        let all = format!("{out}\u{1}{err}");
+        line.push(0xC0DE);
+        line.push(fnv(&all));
+        line.push((out.len() + err.len()) as u64);
+        lines.push(line);
+    }
+    lines
+}
